@@ -9,6 +9,7 @@
 Contract code must only touch objects through this API (E.new / E.call / attribute reads on the
 returned handles) so that both engines can run it.
 """
+import ast
 import math
 import random
 
@@ -78,6 +79,37 @@ def Min(a, b):
 
 def Max(a, b):
     return Ite(a >= b, a, b)
+
+
+def ctor_constants(fnode):
+    """{field: constant} for the top-level statements `self.<field> = <constant>` of a constructor"""
+    out = {}
+    if not fnode.args.args:
+        return out
+    me = fnode.args.args[0].arg
+    for st in fnode.body:
+        if isinstance(st, ast.Assign) and len(st.targets) == 1 and isinstance(st.value, ast.Constant):
+            t = st.targets[0]
+            if isinstance(t, ast.Attribute) and isinstance(t.value, ast.Name) and t.value.id == me \
+                    and isinstance(st.value.value, (type(None), bool, int, float, str)):
+                out[t.attr] = st.value.value
+    return out
+
+
+_REAL_CTOR = {}
+
+
+def _real_ctor_constants(cls):
+    if cls not in _REAL_CTOR:
+        import inspect
+        import textwrap
+
+        try:
+            node = ast.parse(textwrap.dedent(inspect.getsource(cls.__dict__["__init__"]))).body[0]
+            _REAL_CTOR[cls] = ctor_constants(node)
+        except (OSError, TypeError, SyntaxError, IndexError):
+            _REAL_CTOR[cls] = {}
+    return _REAL_CTOR[cls]
 
 
 class Outcome(object):
@@ -163,12 +195,19 @@ class SymE(object):
         return self.ip.cls(name)
 
     def new(self, clsname, **fields):
-        """raw object of class `clsname` with exactly these fields (no constructor is run)"""
+        """raw object of class `clsname` with these fields (no constructor is run); fields that the constructors of
+        the class and its bases initialise with a constant (`self.x = None` ...) and that are not given here get
+        that constant - hidden state such as caches starts in the state a constructor leaves it in"""
         o = Obj(self.ip.cls(clsname))
-        from .interp import BT
+        from .interp import BT, ClassVal, PyFunc
 
         if BT["list"] in o.cls.mro():
             object.__setattr__(o, "items", PList(fields.pop("_items", [])))
+        for c in reversed(o.cls.mro()):
+            fn = c.ns.get("__init__") if isinstance(c, ClassVal) else None
+            if isinstance(fn, PyFunc):
+                for k, v in ctor_constants(fn.node).items():
+                    o.fd[k] = self._in(v)
         for k, v in fields.items():
             o.fd[k] = self._in(v)
         return o
@@ -227,6 +266,40 @@ class SymE(object):
 
     def drop_contract(self, qual):
         self.ip.call_hooks.pop(qual, None)
+
+    def pure_contract(self, qual, fields, result="real"):
+        """frame contract of a pure observer method: after the audit `loops.audit_pure` (no store to an attribute,
+        subscript or global in `qual` or in anything it may call) the call is a *function* of the listed numeric
+        fields of its receiver and of its numeric arguments - represented by an uninterpreted function.  `fields`
+        maps the receiver to a tuple of numbers; result: "real" or "point"."""
+        from . import loops
+        from .engine import Undecided
+
+        try:
+            loops.audit_pure(self.ip.tree, qual)
+        except loops.NotElementwise as e:
+            raise Undecided("frame contract of %s not applicable: %s" % (qual, e))
+
+        def flat(v):
+            if v is None:
+                return []
+            if isinstance(v, Obj):
+                if "x" in v.fd and "y" in v.fd:
+                    return [v.fd["x"], v.fd["y"]]
+                raise Undecided("pure_contract(%s): argument object %r" % (qual, v.cls))
+            if isinstance(v, (tuple, list)):
+                return [y for x in v for y in flat(x)]
+            return [self.ip.unwrap_num(v)]
+
+        def summary(E, args, kwargs):
+            if kwargs:
+                return E.RUN_REAL
+            xs = list(fields(args[0])) + flat(args[1:])
+            if result == "real":
+                return self.uf(qual, *xs)
+            return self.new("Point", x=self.uf(qual + ".x", *xs), y=self.uf(qual + ".y", *xs))
+
+        self.use_contract(qual, summary)
 
     def list(self, xs):
         return PList([self._in(x) for x in xs])
@@ -656,6 +729,10 @@ class ConcE(object):
         items = fields.pop("_items", None)
         if items is not None:
             list.extend(o, [self._raw(x) for x in items])
+        for b in reversed(c.__mro__):
+            if "__init__" in b.__dict__ and b.__module__ == self.mod.__name__:
+                for k, v in _real_ctor_constants(b).items():
+                    object.__setattr__(o, k, v)
         for k, v in fields.items():
             object.__setattr__(o, k, self._raw(v))
         return View(o, self)
@@ -673,6 +750,9 @@ class ConcE(object):
         pass
 
     def use_contract(self, qual, summary):
+        pass  # the real callee runs
+
+    def pure_contract(self, qual, fields, result="real"):
         pass  # the real callee runs
 
     def drop_contract(self, qual):
